@@ -61,7 +61,7 @@ def tree_labels_describe_blocks(ttns, verbose=True):
     return bad
 
 
-def op_labels_describe_blocks(mpo, verbose=True):
+def op_labels_describe_blocks(mpo, verbose=True, sigmas=None):
     """Operator label invariant, decided with dense NumPy only: for every bond i, every non-zero entry of the dense
     contraction of sites 0..i-1 (rows = configurations (up, down) of those sites, column = bond index r) carries exactly the
     stored left-block label: sum_j (sigma_j(up_j) - sigma_j(down_j)) = Llab_i[r]; the boundary labels are 0 / qntot.
@@ -77,7 +77,8 @@ def op_labels_describe_blocks(mpo, verbose=True):
         if verbose:
             print("operator boundary labels wrong", [np.asarray(x).tolist() for x in mpo.qn], mpo.qnidx, tot)
         return 1
-    sig = [np.asarray(b.sigmaqn).reshape(b.nbas, -1) for b in mpo.model.basis]
+    # charges of the physical states: from the operator's model, or first-principles charges supplied by the caller
+    sig = [np.asarray(b.sigmaqn).reshape(b.nbas, -1) for b in mpo.model.basis] if sigmas is None else [np.asarray(x).reshape(len(x), -1) for x in sigmas]
     left = np.ones((1, 1))                 # (configurations, bond)
     charges = np.zeros((1, len(tot)), dtype=int)
     for i, mt in enumerate(mpo):
